@@ -64,6 +64,7 @@ struct Thread {
   uint64_t deadline = UINT64_MAX;
   bool timed_out = false;
   bool woken = false;
+  bool eintr_pending = false;   // VRT_FUTEX_EINTR: this futex wait ends with EINTR at its (shortened) deadline
   pthread_t real_handle {};
   void* (*fn)(void*) = nullptr;
   void* arg = nullptr;
@@ -129,6 +130,7 @@ std::vector<uint64_t> g_change_points;
 int g_low_prio = 0;
 int g_cas_weak_fail = 8;                 // 1/n spurious failures of compare_exchange_weak (0 = never)
 bool g_trace_all = false;
+int g_futex_eintr = 0;                   // opt-in: 1/n of sleeping futex waits return -1/EINTR spuriously
 bool g_payload_sched = false;            // plain accesses to vrt_payload ranges are scheduling points too
 bool g_payload_trace = false;           // opt-in: `prd` / `pwr` trace lines for plain accesses to vrt_payload ranges that are named
 bool g_trace_sleep = false;              // opt-in: `<tid> sleep <ns>` line for every controlled usleep/nanosleep
@@ -542,6 +544,7 @@ void vrt_begin(uint64_t seed) {
   if ((e = getenv("VRT_STRATEGY"))) g_strategy = !strcmp(e, "pct");
   if ((e = getenv("VRT_STEP_LIMIT"))) g_step_limit = strtoull(e, nullptr, 10);
   if ((e = getenv("VRT_CAS_WEAK_FAIL"))) g_cas_weak_fail = atoi(e);
+  g_futex_eintr = (e = getenv("VRT_FUTEX_EINTR")) ? atoi(e) : 0;
   if ((e = getenv("VRT_TRACE_ALL"))) g_trace_all = atoi(e) != 0;
   if ((e = getenv("VRT_MEM"))) g_view = !strcmp(e, "view");
   if ((e = getenv("VRT_STALE"))) g_stale = atoi(e);
@@ -883,10 +886,28 @@ long syscall(long nr, ...) {
       uint64_t dl = UINT64_MAX;
       const struct timespec* ts = (const struct timespec*)d;
       if (ts) dl = (op == FUTEX_WAIT) ? g_clock + ts_ns(ts) : ts_ns(ts);
+      // opt-in (VRT_FUTEX_EINTR=<n>): one in n sleeping waits is interrupted like by a signal without SA_RESTART —
+      // it returns -1/EINTR although nobody woke it and the word did not change: an untimed wait after a short
+      // virtual delay, a timed wait after 1/4..3/4 of its timeout.  In the trace it looks like a spurious wake-up
+      // (`fwoke loc` with no matching fwake).
+      bool eintr = false;
+      if (g_futex_eintr > 0 && g_rng.below(g_futex_eintr) == 0) {
+        eintr = true;
+        uint64_t span = ts ? (dl - g_clock) / 4 + g_rng.below((dl - g_clock) / 2 + 1) : 1 + g_rng.below(2000);
+        dl = g_clock + span;
+      }
       if (named && g_trace_clock && ts) tracef("%d fwait %s %u sleep to=%llu\n", t_self->id, nm, (uint32_t)c, (unsigned long long)ts_ns(ts));
       else
       if (named) tracef("%d fwait %s %u sleep\n", t_self->id, nm, (uint32_t)c);
+      t_self->eintr_pending = eintr;
       block(BLK_FUTEX, addr, dl);
+      eintr = t_self->eintr_pending;
+      t_self->eintr_pending = false;
+      if (t_self->timed_out && eintr) {
+        if (named) tracef("%d fwoke %s\n", t_self->id, nm);
+        errno = EINTR;
+        return -1;
+      }
       if (t_self->timed_out) {
         if (named) tracef("%d fwoke %s timeout\n", t_self->id, nm);
         errno = ETIMEDOUT;
@@ -901,6 +922,13 @@ long syscall(long nr, ...) {
       std::vector<Thread*> w;
       for (Thread* o : g_threads)
         if (o->st == BLK_FUTEX && o->wait_addr == addr) w.push_back(o);
+      // a waiter whose EINTR deadline has passed but which has not run yet is still woken by this call (the wake wins)
+      for (Thread* o : g_threads)
+        if (o->eintr_pending && o->st == RUN && o->timed_out && o->wait_addr == addr && n < (int)c) {
+          o->timed_out = false;
+          o->eintr_pending = false;
+          ++n;
+        }
       while (!w.empty() && n < (int)c) {
         size_t i = g_rng.below(w.size());
         w[i]->st = RUN;
